@@ -190,6 +190,7 @@ class Network(object):
     self._conn_id = 0
     self.fault_plan = {}        # (ep, conn_ordinal|None, kind, op_ordinal|None) -> Fault
     self.fault_fn = None        # callable(conn_or_server, kind, ordinal) -> Fault|None
+    self.connect_hook = None    # callable(server, origin) run in the instant a connect succeeds
     self.installed = False
     self.all_conns = []
     self.faults_fired = []
@@ -230,6 +231,7 @@ class Network(object):
     self.servers = {}
     self.fault_plan = {}
     self.fault_fn = None
+    self.connect_hook = None
     self.all_conns = []
     self.faults_fired = []
 
@@ -364,6 +366,9 @@ class SimSocket(object):
     srv.connect_attempts.append([t0, 'ok', env.now, origin])
     conn.handler = srv.handler_factory(conn) if srv.handler_factory else None
     env.emit('net.connect.end', ep=srv.ep, result='ok', conn=conn.id)
+    hook = self.net.connect_hook
+    if hook is not None:
+      hook(srv, origin)       # harness: something else happens in the very instant a connect completes
 
   def _check_open(self):
     if self.closed or self.conn is None:
